@@ -48,6 +48,7 @@ def _case(draw, tier):
     c["mt1"], c["mt2"] = min(m1, m2), max(m1, m2)
     c["compiled"] = draw(st.booleans())
     c["interval"] = draw(st.one_of(st.none(), gen.subinterval_for(g).map(list)))
+    c["mt_array"] = draw(st.sampled_from([False, False, True]))
     return c
 
 
@@ -111,6 +112,11 @@ def _observe(ctx, case, st1, st2, mt):
     if case["mrts"] is not None:
         kw["MRTS"] = case["mrts"]
     mk = {} if mt == "omit" else {"max_tau": mt}
+    if case.get("mt_array") and isinstance(mt, float) and mt > 0:
+        # the bound handed over as a 0-d numpy array (as np.loadtxt / loadmat give it):
+        # it is an argument like any other and must not be changed by the calls
+        holder = np.array(mt)
+        mk = {"max_tau": holder}
     res = {}
     f = ctx.call("spike_sync_profile", pyspike.spike_sync_profile, st1, st2, **mk, **kw)
     a, b = case["trains"]
@@ -169,6 +175,10 @@ def _observe(ctx, case, st1, st2, mt):
         "spike_directionality_matrix", pyspike.spike_directionality_matrix, [st1, st2],
         normalize=False, **mk, **kw))[0, 1])
     res["scalars"] = sc
+    if case.get("mt_array") and isinstance(mt, float) and mt > 0:
+        ctx.check(float(mk["max_tau"]) == mt, "max_tau_argument_modified",
+                  lambda: "max_tau passed as np.array(%r) is %r after the calls"
+                  % (mt, float(mk["max_tau"])))
     return res
 
 
